@@ -840,7 +840,7 @@ func init() {
 		runFamilies(c, robustFamilies(c, [][]string{{}, {"-i"}}), "C01", c.N(3, 2), false)
 	}})
 	register(&Check{ID: "C02", Title: "terminates without the watchdog", Replay: replayRobust("C02"), Run: func(c *CheckCtx) {
-		c.rule = "same input families as C01 plus inheritance/include cycles and include lattices (2^depth paths); a run is a hang candidate when the logical watchdog (EOF-read, token-fetch or ancestor-walk budget, > 100x the measured legitimate maximum) trips in-process or the worker overflows its stack; it is a violation only if the plain binary then prints `timeout` in 3 of 3 serial reruns made while all workers are paused. distinct_nontrivial = distinct (mode, source) pairs whose run printed output or hung"
+		c.rule = "same input families as C01 plus inheritance/include cycles and include lattices (2^depth paths); a run is a hang candidate when the logical watchdog (EOF-read and token-fetch budgets, > 100x the measured legitimate maxima; ancestor-walk budget, 4x the token budget and about 4x the measured legitimate maximum) trips in-process or the worker overflows its stack; it is a violation only if the plain binary then prints `timeout` in 3 of 3 serial reruns made while all workers are paused. distinct_nontrivial = distinct (mode, source) pairs whose run printed output or hung"
 		c.assumptions = []string{"a black-box `timeout` without logical evidence (slow machine) is counted as inconclusive_slow and never reported", "budgets: eof 5000+50n, tokens 20000+400n for n input bytes"}
 		runFamilies(c, robustFamilies(c, [][]string{{}, {"-i"}}), "C02", c.N(3, 2), false)
 	}})
